@@ -21,7 +21,7 @@ Fixpoint number (ks : list key) (n : N) : amap :=
 Definition ex_state : st :=
   mkSt (number (map pkey all_patched) 100 ++ [(k_saved_showwarning, VNone); (k_showwarning, VOrig 90)])
        "/home" "/home" ["/site"] [1%N; 2%N]
-       [("builtins", KPlain); ("urllib.request", KPlain); ("importlib.util", KPlain); ("os", KPlain)].
+       [("builtins", KPlain); ("urllib.request", KPlain); ("importlib.util", KPlain); ("os", KPlain)] [].
 
 Definition ex_root : string := "/proj/".
 Definition ex_hook : N := 999.
@@ -86,7 +86,7 @@ Proof. exists [FRealCreate "build"], ["setup.py"]. vm_compute. discriminate. Qed
 (* hence the unguarded statement is false of the faithful model *)
 Lemma full_statement_refuted : ~ C13_full_statement.
 Proof.
-  intros H. destruct (H ex_root ex_hook false false ([ODel ("os", "getcwdu")], Finish) ex_state) as (s' & A & L).
+  intros H. destruct (H ex_root ex_hook false false ([ODel ("os", "getcwdu")], Finish) ex_state) as (s' & A & L & _).
   vm_compute in A. inversion A; subst; clear A. vm_compute in L. discriminate.
 Qed.
 
@@ -110,12 +110,13 @@ Definition touches (k : key) (o : op) : bool :=
 
 Lemma run_op_untouched : forall e o s k, touches k o = false -> get k (run_op e o s) = get k s.
 Proof.
-  intros e o s k H; destruct o as [k1 [|n|k']|k1|d|n kd|n|d]; cbn in *; auto.
+  intros e o s k H; destruct o as [k1 [|n|k']|k1|d|n kd|n|d|k1 c]; cbn in *; auto.
   - apply get_set_neq. apply key_eqb_neq; exact H.
   - apply get_set_neq. apply key_eqb_neq; exact H.
   - destruct (get k' s); auto. apply get_set_neq. apply key_eqb_neq; exact H.
   - apply get_del_neq. apply key_eqb_neq; exact H.
   - apply do_chdir_facts.
+  - apply mutate_get.
 Qed.
 
 Definition py_step (e : env) (a : st) (o : op) : st :=
@@ -198,9 +199,10 @@ Proof.
     { induction os as [|o r IH]; intros a Ha Hn; cbn; auto. cbn in Hn. apply andb_true_iff in Hn. destruct Hn as [A B].
       assert (T : touches k_chdir o = false) by (destruct (touches k_chdir o); [discriminate|reflexivity]).
       rewrite IH; auto.
-      - destruct o as [k1 [|n|k']|k1|d|n kd|n|d]; cbn; auto.
+      - destruct o as [k1 [|n|k']|k1|d|n kd|n|d|k1 c]; cbn; auto.
         + destruct (get k' a); reflexivity.
         + unfold do_chdir. rewrite Ha. reflexivity.
+        + apply mutate_fields.
       - rewrite py_step_untouched by exact T. exact Ha. }
     rewrite CS; auto.
     + destruct F2 as [_ R2]. unfold rest in R2. pose proof (f_equal (fun x => fst (fst (fst x))) R2) as Cw2; cbn in Cw2.
